@@ -8,6 +8,10 @@
       C09_roundtrip_AD ([pa_tip p = ad_tip f] after parsing the text);
     - "both records of a transfer pair carry the same mask": C07_pairing ([pair_records]: [ad_tip fd = ad_tip fa],
       [kw_fields]); stated here as C10_pair_same_mask;
+    - "the records produced through aspirate / dispense / transfer keyword pass-through": every A / D record these
+      calls append shows, in its parsed text, the mask of the [tip] keyword: C10_passthrough_mask (a corollary of
+      C09_aspirate_passthrough / C09_dispense_passthrough / C09_transfer_passthrough in Props/C09.v, which give all
+      pass-through fields; proofs in Proofs/PassThroughProofs.v);
     - "EVO script commands": C13_fields / C13_parse_fields ([cm_mask c = Z.of_N (mask_or bs)]) and C13_wash;
       stated here on the parsed command text as C10_command_mask / C10_wash_mask.
     KNOWN FINDING (review item M15): an EMPTY collection of tips is not rejected.  Model and library agree:
@@ -16,7 +20,7 @@
     emits mask 0 (C13_example_wash_reject).  So "everything else is rejected" holds for invalid ELEMENTS
     (C10_reject_iff) but not for the empty collection (C10_empty_collection). *)
 From Robo Require Import Prelude Str Wells Utils Labware Tips Records Partition Params Worklist EvoCmd
-  CmdDecode CmdParse TipsProofs PlanProofs EvoCmdProofs TextExtraProofs.
+  CmdDecode CmdParse Gwl TipsProofs PlanProofs EvoCmdProofs TextExtraProofs PassThroughProofs.
 From Coq Require Import Permutation.
 
 (** a number n in 1..8 and the Tip member Tn are both emitted as 2^(n-1) *)
@@ -88,6 +92,34 @@ Theorem C10_pair_same_mask : forall s ks kd sw dw v ws kw s', (0 < v)%Q ->
 Proof. exact tx_pair_same_mask. Qed.
 Print Assumptions C10_pair_same_mask.
 
+(** keyword pass-through (REVIEW.md M15).  [rec_mask m r]: if [r] is an A / D record, the tip-mask field of its
+    TEXT, read by the independent parser of Spec/Gwl.v, is [m] ([None]: the empty field of Tip.Any) *)
+Definition rec_mask (m : option N) (r : srec) : Prop :=
+  match r with
+  | RA _ => exists p, parse_record (render r) = Some (PA p) /\ pa_tip p = m
+  | RD _ => exists p, parse_record (render r) = Some (PD p) /\ pa_tip p = m
+  | _ => True
+  end.
+
+(** [w'] is [w] plus records whose A / D records all carry the mask of [k_tip kw]; with an invalid tip argument
+    no A / D record is appended at all *)
+Definition emits_mask (kw : kwargs) (w w' : wstate) : Prop :=
+  exists new, w' = emit w new /\
+    (forall m, tip_mask (k_tip kw) = Ok m -> Forall (rec_mask m) new) /\
+    (forall e, tip_mask (k_tip kw) = Err e ->
+       forallb (fun r => match r with RA _ | RD _ => false | _ => true end) new = true).
+
+(** every A / D record appended by aspirate / dispense / transfer (whatever the outcome of the call) carries the
+    mask of the [tip] keyword; in particular all records of one call carry the same mask *)
+Theorem C10_passthrough_mask : forall kw s s' e,
+  (forall k wells vols label, aspirate s k wells vols label kw = (s', e) -> emits_mask kw (st_wl s) (st_wl s')) /\
+  (forall k wells vols label comps, dispense s k wells vols label comps kw = (s', e) ->
+     emits_mask kw (st_wl s) (st_wl s')) /\
+  (forall ks swells kd dwells vols label ws pb, transfer s ks swells kd dwells vols label ws pb kw = (s', e) ->
+     emits_mask kw (st_wl s) (st_wl s')).
+Proof. exact pt_passthrough_mask. Qed.
+Print Assumptions C10_passthrough_mask.
+
 (** the mask written into an Aspirate / Dispense script command (read from the command text with the
     independent parser of Spec/CmdParse.v) is the mask of the tip list; [tx_lc_clean]: the liquid class has
     no comma and no double quote (C13) *)
@@ -138,4 +170,19 @@ Example C10_example_pair :
      {| x_rack_label := PStr "P"; x_position := PInt 1; x_volume := PV (XQ 10); x_liquid_class := PStr "";
         x_tip := TipMany []; x_rack_id := PStr ""; x_tube_id := PStr ""; x_rack_type := PStr "";
         x_forced := PStr "" |}))) = ["A;P;;;1;;10.00;;;0;"]%string.
+Proof. vm_compute. repeat split; reflexivity. Qed.
+
+(** non-vacuity of C10_passthrough_mask: a stand-alone aspirate of two wells with tips [3; T1; 3]: both A records
+    carry mask 5; with an invalid tip (9) the call raises and no record is appended (the plate stays charged) *)
+Example C10_example_passthrough :
+  let r := aspirate ex_state 0 (A1 ["A01"; "B01"]%string) (A0 (XQ 10)) None ex_kw in
+  let r' := aspirate ex_state 0 (A1 ["A01"; "B01"]%string) (A0 (XQ 10)) None
+              {| k_liquid_class := PStr "W"; k_tip := TipOne (TInt 9); k_rack_id := PStr "";
+                 k_tube_id := PStr ""; k_rack_type := PStr ""; k_forced := PStr "" |} in
+  snd r = None /\
+  map render (w_recs (st_wl (fst r))) = ["A;P;;;1;;10.00;W;;5;"; "A;P;;;2;;10.00;W;;5;"]%string /\
+  map (fun x => match parse_record (render x) with Some (PA p) => pa_tip p | _ => None end)
+      (w_recs (st_wl (fst r))) = [Some 5%N; Some 5%N] /\
+  snd r' = Some EReject /\ w_recs (st_wl (fst r')) = [] /\
+  map lw_vols (st_lw (fst r')) = [[90; 100; 90; 100]]%Q.
 Proof. vm_compute. repeat split; reflexivity. Qed.
